@@ -9,6 +9,7 @@
 -/
 import Jence.Model.Search
 import Jence.Lemmas.ForcedMate
+import Jence.Lemmas.MateInOne
 import Jence.Lemmas.IdVal
 namespace Jence.Props.C11
 open Jence
@@ -228,6 +229,47 @@ theorem toyMate_inv : EvalInv toyMate (fun _ => True) := ⟨fun _ _ _ _ _ => tri
 example : scoreField (nVal toyMate [] 3 default 2 0) = .mate 1 := by decide +kernel
 example : MatesIn toyMate 1 default :=
   (announced_value_is_forced_mate toyMate _ toyMate_inv [] 3 default 2 trivial 1 (by decide +kernel)).1 (by decide)
+
+/-! ### T11.3 (part) - a mate in one is announced as `mate 1` -/
+
+/-- **T11.3a** When the side to move has a generated move that `make` accepts and that leaves the opponent checkmated
+    (in check, no move can be made), the plain minimax value of the root at every nominal depth from 2 on is
+    `MATE_VALUE − 1`, which is announced as `mate 1` - for every rules instance with a bounded evaluation (`EvalInv`),
+    game history, and fuel, provided neither the root nor the mated position is at half-move clock 100 (where the engine
+    hands over to the capture search) and the mated position is not one of the game history (it would score as a draw
+    first). At nominal depth 1 the mated position is at the horizon, where the engine's capture search does not look for
+    mate - which is why the property starts at a higher depth. -/
+theorem mate_in_one_value_is_announced (R : Rules) (P : Game → Prop) (hI : EvalInv R P) (H : List UInt64) (fuel : Nat)
+    (g : Game) (depth : Nat) (hP : P g) (hd : 2 ≤ depth) (hhm : (g.halfMoves == 100) = false)
+    (m : Move) (hm : m ∈ R.generate g true) (c : Game) (hmk : R.make g m = some c) (hmated : Mated R c)
+    (hcH : H.contains c.key = false) (hchm : (c.halfMoves == 100) = false) :
+    scoreField (nVal R H (fuel + 2) g depth 0) = .mate 1 := by
+  rw [nVal_mate_in_one R P hI H fuel g depth hP hd hhm m hm c hmk hmated hcH hchm]
+  decide
+
+/-- **T11.3b (partial: the depth-2 iteration, table bypassed)** In a run that was neither stopped nor overflowed, the
+    iteration of nominal depth 2 announces `mate 1` whenever its score lies inside its aspiration window and the side to
+    move has a mating move. Missing for the full T11.3: the iterations of depth >= 3 (validated by the mate oracle). -/
+theorem mate_in_one_found_at_depth_two_partial (R : Rules) (cfg : Cfg) (hbyp : cfg.ttBypass = true) (g : Game)
+    (H : List UInt64) (count cur : Nat) (alpha beta score : Int) (e : Env) (hab : alpha < beta) (hp : e.ply = 0)
+    (hH : e.rep.pre = H) (hclean : Clean (idLoop R cfg g count cur alpha beta score e).2.2)
+    (P : Game → Prop) (hI : EvalInv R P) (hP : P g) (hhm : (g.halfMoves == 100) = false)
+    (m : Move) (hm : m ∈ R.generate g true) (c : Game) (hmk : R.make g m = some c) (hmated : Mated R c)
+    (hcH : H.contains c.key = false) (hchm : (c.halfMoves == 100) = false) :
+    ∀ it ∈ idTrace R cfg g count cur alpha beta e, it.depth = 2 → it.alpha < it.score → it.score < it.beta →
+      scoreField it.score = .mate 1 := by
+  intro it hit hd hlo hhi
+  obtain ⟨_, _, _, s3⟩ := idLoop_value R cfg hbyp g H count cur alpha beta score e hab hp hH hclean it hit (by omega)
+  have hv := s3 hlo hhi
+  have hf : negaFuel = (negaFuel - 2) + 2 := by decide
+  rw [hd, hf] at hv
+  rw [← hv]
+  exact mate_in_one_value_is_announced R P hI H (negaFuel - 2) g 2 hP (by omega) hhm m hm c hmk hmated hcH hchm
+
+/-- non-vacuity: the toy instance above meets every hypothesis of T11.3a -/
+example : scoreField (nVal toyMate [] (1 + 2) default 2 0) = .mate 1 :=
+  mate_in_one_value_is_announced toyMate _ toyMate_inv [] 1 default 2 trivial (by decide) (by decide) Move.null
+    (by decide) { (default : Game) with halfMoves := 1 } rfl ⟨by decide, by decide⟩ (by decide) (by decide)
 
 /-! Non-vacuity and the concrete cases the property names. -/
 example : inMateRange 1 ∧ (1 : Int) % 2 = 1 := by unfold inMateRange; decide
